@@ -35,7 +35,7 @@ def cells(tier):
     # roStorySend with an empty storyBody (a missing one is not schema-shaped: storyBody is a required element)
     out += make_cells(PID, 'exc', tier, N=3, ops=['roStorySend'], extra={'empty_body': True}, suffix='empty-storyBody')
     # stories that carry only some of the timing tags (TextTime alone, MediaTime alone, an empty payload)
-    for pat in (['TT', 'SD', 'MT'], ['MT', 'TT+MT', 'none'], ['empty', 'TT', 'SD']):
+    for pat in (['TT', 'SD', 'MT'], ['MT', 'TT+MT', 'none'], ['empty', 'TT', 'SD'], ['SD', 'blank', 'TT']):
         out += make_cells(PID, 'exc', tier, thin=plain, extra={'timing_pat': pat}, suffix='timing-' + ','.join(pat))
     out += make_cells(PID, 'exc', tier, thin=some, extra={'blank_first': True}, suffix='blank-id-first')
     out += make_cells(PID, 'exc', tier, thin=plain, extra={'blank_first': True, 'untimed': [1]}, suffix='blank-id-first+untimed-1')
